@@ -288,6 +288,7 @@ func (c *container) sendLoop() {
 				c.socketError(err)
 				return
 			}
+			verifEvent("host", "send", verifCmdKind(cmd.Cmd))
 		}
 	}
 }
@@ -300,6 +301,7 @@ func (c *container) recvLoop() {
 			c.socketError(err)
 			return
 		}
+		verifEvent("host", "recv", verifReplyKind(reply, msg))
 		c.recvCh <- recvReply{
 			Reply: reply,
 			Msg:   msg,
